@@ -116,6 +116,23 @@ class Summariser:
             for p in live:
                 ch = n.get('ch', [])
                 if ch and ch[0] >= 0:
+                    j = fn.strip(ch[0])
+                    tern = fn.nodes[j] if j is not None and j >= 0 else {}
+                    if tern.get('k') == 'ConditionalOperator' and len(tern.get('ch', [])) == 3:
+                        # return c ? a : b;  ==  if (c) return a; else return b;
+                        c = self.expr(fn, tern['ch'][0], p)
+                        pt = p.fork()
+                        pt.cond.append(c)
+                        p.cond.append(neg(c))
+                        for q, e in ((pt, tern['ch'][1]), (p, tern['ch'][2])):
+                            inl = self.inline_return(fn, e, q)
+                            if inl is not None:
+                                out += inl
+                                continue
+                            q.ret = self.expr(fn, e, q)
+                            q.returned = True
+                            out.append(q)
+                        continue
                     inl = self.inline_return(fn, ch[0], p)
                     if inl is not None:
                         out += inl
